@@ -139,11 +139,12 @@ Vals(t) ==
                         LET AllBits == UNION { t.syms[i].bits : i \in 1..Len(t.syms) }
                             Multi == { i \in 1..Len(t.syms) : Cardinality(t.syms[i].bits) > 1 }
                             Parts == SetToSeq(UNION { { {b}, {b} \cup t.syms[Len(t.syms)].bits } : b \in UNION { t.syms[i].bits : i \in Multi } })
-                        IN << SmallInt(0) >> \o [i \in 1..Len(t.syms) |-> t.syms[i].v]
+                        \* (the partial values come first: only the first few values of a type are run in the quick tier)
+                        IN << SmallInt(0) >> \o [i \in 1..Len(Parts) |-> Nat0(OrBits(Parts[i]))]
+                           \o [i \in 1..Len(t.syms) |-> t.syms[i].v]
                            \o << Nat0(OrBits(UNION { t.syms[i].bits : i \in 1..(IF Len(t.syms) < 2 THEN Len(t.syms) ELSE 2) })),
                                  Nat0(OrBits(AllBits)),
                                  Nat0(OrBits(t.syms[1].bits \cup {5})) >>
-                           \o [i \in 1..Len(Parts) |-> Nat0(OrBits(Parts[i]))]
     [] t.k = "rec" -> LET n == Len(t.fields)
                           per == [i \in 1..n |-> Vals(t.fields[i].t)]
                           m == IF n = 0 THEN 1 ELSE 3
